@@ -9,6 +9,8 @@ for sid in ids:
     d = os.path.join(HERE, 'seeded', sid)
     meta = json.load(open(os.path.join(d, 'meta.json')))
     prop = meta.get('property') or sid.split('-')[0]
+    import re as _re
+    prop = (_re.match(r'C\d+', prop) or _re.match(r'C\d+', sid)).group(0)
     m = tempfile.mkdtemp(prefix='seedrepo_', dir='/var/tmp')
     shutil.copytree('/repo/include', os.path.join(m, 'include'))
     r = subprocess.run(['patch', '-s', '-p1', '-i', os.path.join(d, 'patch.diff')], cwd=m, capture_output=True, text=True)
